@@ -6,8 +6,12 @@
 #include <errno.h>
 #include "qmail-send.c"
 
+#ifndef NSLOT
 #define NSLOT 4
+#endif
+#ifndef NJOB
 #define NJOB 8
+#endif
 enum { F_OTHER, F_INFO, F_TODO, F_MESS, F_FOOP, F_LOCAL, F_REMOTE, F_BOUNCE, F_SPLIT };
 int g_fn_kind, g_fn2_kind; unsigned long g_fn_id, g_fn2_id;
 static char fnbuf1[FMTQFN], fnbuf2[FMTQFN];
@@ -196,13 +200,175 @@ void h_pass(void)
   if (!id0 && g_delmin[c] && !newpass) V_ASSERT(g_nins == 1 && g_ins_q[0] == &pqchan[c] && g_ins_id[0] == g_min[c].id, "C03: a message whose pass could not be opened goes back to its retry queue, never forgotten");
   if (g_started) {
     V_ASSERT(g_getln == 1 && g_match && linebuf[0] == 'T', "C04: a delivery is started only for a recipient record still marked T (never for one marked done)");
-    V_ASSERT(g_start_j == j0 && g_start_mpos == mpos0, "C04: the completion mark offset handed to the delivery is the offset of exactly that record");
+    V_ASSERT(g_start_j == j0 && g_start_mpos == mpos0, "C04,C03: the completion mark offset handed to the delivery is the offset of exactly that record");
     V_ASSERT(jobs[j0].numtodo == todo0 + 1, "C03: every started delivery is counted as pending");
   }
-  if (g_getln == 1 && g_match && pass[c].id) V_ASSERT(pass[c].mpos == mpos0 + (seek_pos)g_linelen, "C04: the mark offset advances over every record read, done or not");
+  if (g_getln == 1 && g_match && pass[c].id) V_ASSERT(pass[c].mpos == mpos0 + (seek_pos)g_linelen, "C04,C03: the mark offset advances over every record read, done or not (else a later success marks an earlier, merely deferred recipient as finished)");
   if (g_getln == 1 && !g_match) V_ASSERT(g_jobclosed && jobs[j0].flaghiteof == 1 && pass[c].id == 0, "C03: at the end of the list the pass is closed with the end-of-list flag");
   if (g_getln == 1 && g_match) V_ASSERT(jobs[j0].flaghiteof == 0, "C03: the end-of-list flag is set only at the real end of the list");
   if (g_getln == -1 || (g_getln == 1 && g_match && linebuf[0] != 'T' && linebuf[0] != 'D')) V_ASSERT(g_jobclosed && pass[c].id == 0 && jobs[j0].flaghiteof == 0, "C03: on a read error or an unknown record the pass is closed without the end-of-list flag (the list is kept)");
   V_COVER(g_started); V_COVER(!id0 && pass[c].id && g_started);
+}
+#endif
+
+/* ================= del_dochan: one complete report (the NUL that ends it arrives now) ================= */
+#ifdef P_DELREPORT
+static struct job jobs[NJOB]; static struct del dels[CHANNELS][NSLOT]; static char dl[16];
+int g_marked, g_mark_c, g_bounced, g_order_ok, g_closedjob = -1, g_spawndied; unsigned long g_mark_id, g_bounce_id; seek_pos g_mark_pos; char *g_bounce_recip;
+int g_noread;
+ssize_t read(int fd, void *b, size_t n) { int r = ND_INT(); V_ASSERT(b == delbuf && n == sizeof delbuf, "C18: supporting: reports are read into delbuf"); if (r == 1) { delbuf[0] = 0; return 1; } if (r != 0) g_noread = 1; return r == 0 ? 0 : -1; }
+int stralloc_append(stralloc *sa, char *c) { if (sa->len < 16) sa->s[sa->len] = *c; ++sa->len; return 1; }      /* count only: the report text is not interpreted beyond bytes 0 and 1 */
+int stralloc_cats(stralloc *sa, char *s) { sa->len += 70; return 1; }
+void h_delreport(void)
+{
+  int c = ND_BOOL(), k, n, dn; int used0[NSLOT], todo0[NJOB], cu0; unsigned len0; char st;
+  common_init(); numjobs = NJOB; jo = jobs; d[0] = dels[0]; d[1] = dels[1];
+  concurrency[0] = ND_UINT(); concurrency[1] = ND_UINT(); V_ASSUME(concurrency[0] <= NSLOT && concurrency[1] <= NSLOT);
+  for (k = 0; k < NJOB; ++k) { jobs[k].refs = ND_INT(); jobs[k].id = ND_ULONG(); jobs[k].numtodo = ND_INT(); jobs[k].flagdying = ND_BOOL(); jobs[k].channel = c; V_ASSUME(0 <= jobs[k].numtodo && jobs[k].numtodo <= 100000 && 0 <= jobs[k].refs && jobs[k].refs <= 100000); todo0[k] = jobs[k].numtodo; }
+  n = 0;
+  for (k = 0; k < NSLOT; ++k) { dels[c][k].used = ND_BOOL(); dels[c][k].j = ND_INT(); dels[c][k].mpos = ND_LONG(); dels[c][k].delid = ND_ULONG(); V_ASSUME(0 <= dels[c][k].j && dels[c][k].j < NJOB); used0[k] = dels[c][k].used; if (used0[k]) { ++n; V_ASSUME(jobs[dels[c][k].j].numtodo >= 1 && jobs[dels[c][k].j].refs >= 1); } }
+  concurrencyused[c] = n; cu0 = n;
+  /* the report collected so far: delivery number, status byte, any text; its terminating NUL is what read() delivers */
+  dl[0] = ND_CHAR(); dl[1] = ND_CHAR(); dline[c].s = dl; dline[c].a = 16; dline[c].len = ND_UINT(); V_ASSUME(dline[c].len <= REPORTMAX);
+  len0 = dline[c].len; st = len0 >= 2 ? dl[1] : 0; dn = (unsigned char)dl[0];
+  g_marked = g_bounced = g_spawndied = g_noread = 0; g_closedjob = -1; g_order_ok = 1;
+  del_dochan(c);
+  if (g_spawndied || g_noread || len0 == 0) { V_ASSERT(!g_marked && !g_bounced && concurrencyused[c] == cu0, "C03: a lost spawner or an empty report marks no recipient as finished"); }
+  else {
+    int valid = dn < (int)concurrency[c] && used0[dn];
+    for (k = 0; k < NSLOT; ++k) if (!(valid && k == dn)) V_ASSERT(dels[c][k].used == used0[k], "C18: a report changes only the delivery slot it names");
+    if (!valid) {
+      V_ASSERT(!g_marked && !g_bounced && concurrencyused[c] == cu0 && g_closedjob == -1, "C18: out-of-range, unused or malformed reports change no recipient's state");
+      for (k = 0; k < NJOB; ++k) V_ASSERT(jobs[k].numtodo == todo0[k], "C18: out-of-range, unused or malformed reports change no recipient's state");
+    } else if (len0 >= 1) {
+      int j = dels[c][dn].j, perm = st == 'D' || (st == 'Z' && jobs[j].flagdying);
+      V_ASSERT(g_marked == (st == 'K' || perm), "C03: a recipient is marked finished exactly for a success or a permanent failure (a temporary failure only on the message's last attempt); never for a deferral or a garbled report");
+      if (g_marked) V_ASSERT(g_mark_c == c && g_mark_id == jobs[j].id && g_mark_pos == dels[c][dn].mpos, "C04: the completion mark is written at the offset of the reported recipient, in its message's list");
+      V_ASSERT(g_bounced == perm, "C14: every permanent failure (and only those) is recorded in the message's bounce");
+      if (g_bounced) V_ASSERT(g_order_ok && g_bounce_id == jobs[j].id && g_bounce_recip == dels[c][dn].recip.s, "C03: the failure is recorded in the bounce before the recipient is marked finished");
+      V_ASSERT(jobs[j].numtodo == todo0[j] - (g_marked ? 1 : 0), "C03: supporting: pending count decreases exactly for finished recipients");
+      V_ASSERT(dels[c][dn].used == 0 && concurrencyused[c] == cu0 - 1 && g_closedjob == j, "C04: a reported delivery frees exactly its slot");
+    }
+  }
+  V_ASSERT(dline[c].len == 0 || g_spawndied || g_noread || len0 == 0, "C18: supporting: the report buffer is reset after each report");
+  V_COVER(g_marked && g_bounced); V_COVER(g_marked && !g_bounced); V_COVER(!g_marked && g_closedjob >= 0);
+}
+#endif
+
+/* ================= del_start ================= */
+#ifdef P_DELSTART
+static struct job jobs[NJOB]; static struct del dels[CHANNELS][NSLOT]; static char rc[8];
+int g_commwrites, g_cw_slot;
+int stralloc_copys(stralloc *sa, char *s) { return ND_BOOL(); } int stralloc_append(stralloc *sa, char *c) { return ND_BOOL(); }
+void h_delstart(void)
+{
+  int j = ND_INT(), c, k, n = 0, used0[NSLOT], refs0, cu0; seek_pos mpos = ND_LONG();
+  common_init(); numjobs = NJOB; jo = jobs; d[0] = dels[0]; d[1] = dels[1];
+  V_ASSUME(0 <= j && j < NJOB); jobs[j].channel = ND_BOOL(); c = jobs[j].channel; jobs[j].refs = 1 + ND_UINT() % 1000; refs0 = jobs[j].refs; jobs[j].id = g_id;
+  concurrency[c] = ND_UINT(); V_ASSUME(concurrency[c] <= NSLOT); flagspawnalive[c] = ND_BOOL();
+  for (k = 0; k < NSLOT; ++k) { dels[c][k].used = ND_BOOL(); used0[k] = dels[c][k].used; if (used0[k] && k < (int)concurrency[c]) ++n; }
+  concurrencyused[c] = n; cu0 = n; g_commwrites = 0; masterdelid = 1 + ND_ULONG() % 1000000;
+  comm_buf[c].s = rc; comm_buf[c].len = ND_BOOL();
+  del_start(j, mpos, rc);
+  { int taken = -1, cnt = 0; for (k = 0; k < NSLOT; ++k) if (dels[c][k].used != used0[k]) { taken = k; ++cnt; }
+    V_ASSERT(cnt <= 1, "C04: one delivery attempt takes at most one slot");
+    if (cnt == 1) {
+      V_ASSERT(taken < (int)concurrency[c] && !used0[taken] && dels[c][taken].used == 1, "C04: a delivery uses only a free slot below the channel's concurrency limit");
+      V_ASSERT(concurrencyused[c] == cu0 + 1 && concurrencyused[c] <= concurrency[c], "C04: the number of outstanding attempts never exceeds the channel's concurrency");
+      V_ASSERT(dels[c][taken].j == j && dels[c][taken].mpos == mpos && jobs[j].refs == refs0 + 1, "C04: the slot remembers its message and the mark offset of its recipient");
+      V_ASSERT(g_commwrites == 1 && g_cw_slot == taken && flagspawnalive[c], "C04: exactly one delivery command is sent per slot taken, carrying that slot's number");
+    } else V_ASSERT(concurrencyused[c] == cu0 && jobs[j].refs == refs0 && g_commwrites == 0, "C04: when no slot is taken nothing is sent and nothing is counted");
+  }
+  V_COVER(concurrencyused[c] == NSLOT);
+}
+#endif
+
+/* ================= wake-up computation (C16 P3) ================= */
+#ifdef P_SELPREP
+static struct job jobs[NJOB]; static struct del dels[CHANNELS][NSLOT];
+int g_trigger_selprep;
+void trigger_selprep(int *n, fd_set *r) { g_trigger_selprep = 1; }
+void h_selprep(void)
+{
+  datetime_sec w0 = ND_LONG(), w; int k, c, fds = 1; fd_set r;
+  common_init(); numjobs = NJOB; jo = jobs; d[0] = dels[0]; d[1] = dels[1];
+  for (k = 0; k < NJOB; ++k) jobs[k].refs = ND_BOOL();
+  for (c = 0; c < CHANNELS; ++c) { pass[c].id = ND_ULONG(); flagspawnalive[c] = ND_BOOL(); concurrency[c] = ND_UINT() % (NSLOT + 1); concurrencyused[c] = ND_UINT() % (NSLOT + 1); comm_buf[c].s = 0; }
+  flagexitasap = 0; tododir = ND_BOOL() ? (DIR *)jobs : 0; nexttodorun = ND_LONG(); flagcleanup = ND_BOOL(); cleanuptime = ND_LONG();
+  V_ASSUME(0 <= w0 && w0 < (1L << 41) && 0 <= nexttodorun && 0 <= cleanuptime);
+  w = w0;
+  pass_selprep(&w);
+  V_ASSERT(w <= w0, "C16: computing the next wake-up only ever moves it earlier");
+  if (g_min_ok[2]) V_ASSERT(w <= g_min[2].dt, "C16: the daemon never sleeps past the earliest retry of a message whose files could not be examined");
+  if (g_min_ok[3]) V_ASSERT(w <= g_min[3].dt, "C16: the daemon never sleeps past the earliest pending completion (bounce/removal retry)");
+  for (c = 0; c < CHANNELS; ++c) if (!pass[c].id && g_min_ok[c] && job_avail()) V_ASSERT(w <= g_min[c].dt, "C16: the daemon never sleeps past the earliest due message of a channel it can serve");
+  { datetime_sec w1 = w; todo_selprep(&fds, &r, &w); V_ASSERT(w <= w1 && w <= nexttodorun && (!tododir || w == 0), "C16: the daemon never sleeps past the next todo scan, and not at all while a scan is in progress"); }
+  { datetime_sec w1 = w; cleanup_selprep(&w); V_ASSERT(w <= w1 && w <= cleanuptime && (!flagcleanup || w == 0), "C16: the daemon never sleeps past the next cleanup run"); }
+  V_COVER(w == w0); V_COVER(w == g_min[3].dt && w < w0);
+}
+#endif
+
+/* ================= main(): start-up ================= */
+#ifdef P_MAIN
+int g_eintr;
+int g_locked, g_lock_failed, g_mutated, g_announced[CHANNELS], g_conf[CHANNELS], g_nread, g_exit = -1, g_jobinit;
+int chdir(const char *p) { return ND_BOOL() ? -1 : 0; }
+void sig_pipeignore(void) {} void sig_termcatch(void (*f)()) {} void sig_alarmcatch(void (*f)()) {} void sig_hangupcatch(void (*f)()) {} void sig_childdefault(void) {}
+mode_t umask(mode_t m) { return 0; }
+int open_write(char *f) { return ND_BOOL() ? -1 : 9; }
+int lock_exnb(int fd) { if (ND_BOOL()) { g_lock_failed = 1; return -1; } g_locked = 1; return 0; }
+ssize_t read(int fd, void *b, size_t n)
+{
+  int c = fd == chanfdin[0] ? 0 : 1;
+  V_ASSERT(g_locked, "C02: nothing is read from the spawners before the queue lock is held");
+  if (ND_BOOL()) { if (g_eintr < 2 && ND_BOOL()) { ++g_eintr; errno = EINTR; } else errno = EIO; return -1; }   /* at most two interrupted reads in a row */
+  if (ND_BOOL()) return 0;
+  g_eintr = 0;
+  g_announced[c] = ND_UCHAR(); *(char *)b = (char)g_announced[c]; ++g_nread; return 1;
+}
+void _exit(int e) { g_exit = e; if (g_lock_failed) V_ASSERT(e == 111 && !g_mutated, "C02: a second daemon instance refuses to touch a queue that already has one"); V_COVER(g_lock_failed); V_ASSUME(0); }
+void h_main(void)
+{
+  g_locked = g_lock_failed = g_mutated = g_nread = g_jobinit = g_eintr = 0;
+  concurrency[0] = ND_UINT() % 256; concurrency[1] = ND_UINT() % 256; g_conf[0] = (int)concurrency[0]; g_conf[1] = (int)concurrency[1];
+  chanfdin[0] = 2; chanfdin[1] = 4; flagexitasap = 1;
+  main();
+}
+#endif
+
+/* ================= markdone ================= */
+#ifdef P_MARKDONE
+int g_wrote, g_seek_ok; off_t g_seekpos; char g_wbyte; seek_pos g_pos;
+int open_write(char *f) { V_ASSERT(f == fn.s && (g_fn_kind == F_LOCAL || g_fn_kind == F_REMOTE) && g_fn_id == g_id, "C04: the completion mark goes into the recipient list of that message and channel"); return ND_BOOL() ? -1 : 9; }
+int fstat(int fd, struct stat *st) { return ND_BOOL() ? -1 : 0; }
+off_t lseek(int fd, off_t o, int w) { if (ND_BOOL()) return -1; g_seek_ok = (w == SEEK_SET); g_seekpos = o; return o; }
+ssize_t write(int fd, const void *b, size_t n) { V_ASSERT(n == 1 && g_seek_ok && g_seekpos == g_pos && !g_wrote, "C04: exactly one byte is written, at the recipient's mark offset"); g_wbyte = *(const char *)b; g_wrote = 1; return ND_BOOL() ? 1 : -1; }
+int close(int fd) { return 0; }
+void h_markdone(void)
+{
+  int c = ND_BOOL(); common_init(); g_pos = ND_LONG(); V_ASSUME(g_pos >= 0); g_wrote = g_seek_ok = 0;
+  markdone(c, g_id, g_pos);
+  if (g_wrote) V_ASSERT(g_wbyte == 'D' && g_fn_kind == (c ? F_REMOTE : F_LOCAL), "C04: the one-byte completion mark is D");
+  V_COVER(g_wrote);
+}
+#endif
+
+/* ================= todo_do: re-arm before scan (C16 P2) ================= */
+#ifdef P_TODO_ARM
+int g_armed, g_opendir, g_pulled;
+void trigger_set(void) { g_armed = 1; }
+int trigger_pulled(fd_set *r) { g_pulled = ND_BOOL(); return g_pulled; }
+static int ddummy;
+DIR *opendir(const char *n) { V_ASSERT(g_armed, "C16: the trigger is re-armed before the todo directory is opened for a scan (re-arm, then scan: an injection during the scan pulls the new trigger)"); g_opendir = 1; return ND_BOOL() ? (DIR *)&ddummy : 0; }
+struct dirent *readdir(DIR *d) { V_ASSERT(d == (DIR *)&ddummy, "C16: supporting"); return 0; }
+int closedir(DIR *d) { return 0; }
+void h_todo_arm(void)
+{
+  fd_set r; datetime_sec next0;
+  common_init(); g_armed = g_opendir = 0; tododir = 0; nexttodorun = ND_LONG(); next0 = nexttodorun;
+  todo_do(&r);
+  if (g_pulled || recent >= next0) V_ASSERT(g_opendir, "C16: a pulled trigger (or the periodic deadline) starts a scan at once");
+  if (g_opendir && tododir == 0 && 0) ;
+  V_COVER(g_opendir && g_pulled);
 }
 #endif
